@@ -9,6 +9,9 @@ Model of the re-centring of `xi` and of the construction of the space shifts (pr
   src/leaspy/models/time_reparametrized.py    `mixing_matrix = (orthonormal_basis @ betas).T`,
                                               `space_shifts = sources @ mixing_matrix`
   src/leaspy/models/shared_speed_logistic.py  `denom`, `gamma_t0`, `g_metric`, `collin_to_d_gamma_t0`
+  src/leaspy/variables/specs.py               `ModelParameter.for_ind_std`: statistics `xi`, `xi_sqr = Sqr("xi")` collected
+                                              by `compute_sufficient_statistics` *after* the centring (`suffXi`);
+                                              `nll_regul_xi = SumDim(nll_regul_xi_ind)` (`regulSum`)
 
 Import-free, purely algebraic (field operations, one comparison for `torch.sign`); the square root
 of `torch.norm` is a *parameter* (`sqrt`), so the definitions run on `Float` (driver, `Float.sqrt`),
@@ -46,6 +49,33 @@ def centerJoint (xi logV0 nLogNu : List α) : List α × List α × List α :=
   (xi.map (· - m), logV0.map (· + m), nLogNu.map (· + m))
 
 end Center
+
+section GaugeGroup
+variable {α : Type} [Add α] [Sub α] [Mul α] [Div α] [OfNat α 0] [OfNat α 1]
+
+/-- The one-parameter gauge group the re-centring moves along: `xi <- xi - c`, `log_v0 <- log_v0 + c`
+    (`center xi logV0 = shift (mean xi) xi logV0`, by definition). -/
+def shift (c : α) (xi logV0 : List α) : List α × List α :=
+  (xi.map (· - c), logV0.map (· + c))
+
+/-- … and for the joint model: also `n_log_nu <- n_log_nu + c`. -/
+def shiftJoint (c : α) (xi logV0 nLogNu : List α) : List α × List α × List α :=
+  (xi.map (· - c), logV0.map (· + c), nLogNu.map (· + c))
+
+/-- `Sqr("xi")`: the linked variable `xi_sqr` collected next to `xi` by `ModelParameter.for_ind_std`. -/
+def sqr (xi : List α) : List α := xi.map fun x => x * x
+
+/-- The sufficient statistics `xi`, `xi_sqr` as `RiemanianManifoldModel.compute_sufficient_statistics`
+    collects them: **after** `_center_xi_realizations`.  Returned: `(xi, xi_sqr)`. -/
+def suffXi (xi logV0 : List α) : List α × List α :=
+  let x := (center xi logV0).1
+  (x, sqr x)
+
+/-- `nll_regul_xi = SumDim(nll_regul_xi_ind)`: the sum over individuals of an entry-wise term
+    (`Normal("xi_mean", "xi_std")._nll`, given as a parameter; `Model/Dist.lean` has the formula). -/
+def regulSum (nll : α → α) (xi : List α) : α := sum (xi.map nll)
+
+end GaugeGroup
 
 section Linalg
 variable {α : Type} [Add α] [Sub α] [Mul α] [Div α] [Neg α] [OfNat α 0] [OfNat α 1]
@@ -91,6 +121,28 @@ def mixing (n : Nat) (B betas : Nat → Nat → α) : Nat → Nat → α :=
 /-- `space_shifts = sources @ mixing_matrix` for one individual, entry `k` -/
 def spaceShift (ns : Nat) (src : Nat → α) (M : Nat → Nat → α) : Nat → α :=
   fun k => sumTo ns fun s => src s * M s k
+
+/-! Gram matrices (executable forms of the orthonormality statements) -/
+
+/-- `(QᵀQ)[k, l]` for the full Householder matrix -/
+def gramQ (sqrt : α → α) (n : Nat) (a : Nat → α) (j : Nat) : Nat → Nat → α :=
+  fun k l => dot n (fun i => householderQ sqrt n a j i k) (fun i => householderQ sqrt n a j i l)
+
+/-- `(BᵀB)[c, c']` for the returned basis: canonical inner products of its columns -/
+def gramBasis (sqrt : α → α) (n : Nat) (a : Nat → α) (j : Nat) : Nat → Nat → α :=
+  fun c c' => dot n (fun i => basis sqrt n a j i c) (fun i => basis sqrt n a j i c')
+
+/-- the inner product of the diagonal metric `G`: `⟨x, y⟩_G = Σ x_i G_i y_i` (equation (1) of the
+    docstring of `compute_orthonormal_basis`) -/
+def dotG (n : Nat) (G x y : Nat → α) : α := sumTo n fun i => x i * G i * y i
+
+/-- `(Bᵀ diag(G) B)[c, c']`: inner products of the columns of the returned basis *for the metric* -/
+def gramBasisG (sqrt : α → α) (n : Nat) (G a : Nat → α) (j : Nat) : Nat → Nat → α :=
+  fun c c' => dotG n G (fun i => basis sqrt n a j i c) (fun i => basis sqrt n a j i c')
+
+/-- `(B Bᵀ)[i, k]` -/
+def projBasis (sqrt : α → α) (n : Nat) (a : Nat → α) (j : Nat) : Nat → Nat → α :=
+  fun i k => sumTo (n - 1) fun c => basis sqrt n a j i c * basis sqrt n a j k c
 
 /-! shared-speed model: the quantities handed to `OrthoBasis("collin_to_d_gamma_t0", "g_metric")` -/
 
